@@ -210,12 +210,16 @@ impl BreakerBase {
     }
 
     pub fn set_state(&self, state: State) {
+        #[cfg(flea1lt_sentinel_rust_verif)]
+        verif_state::before_lock(&self.state);
         *self.state.lock().unwrap() = state;
     }
 
     pub fn current_state(&self) -> State {
         #[cfg(flea1lt_sentinel_rust_verif)]
         crate::verif::sched::point("cb:read");
+        #[cfg(flea1lt_sentinel_rust_verif)]
+        verif_state::before_lock(&self.state);
         *self.state.lock().unwrap()
     }
 
@@ -235,10 +239,14 @@ impl BreakerBase {
     pub fn from_closed_to_open(&self, snapshot: Arc<Snapshot>) -> bool {
         #[cfg(flea1lt_sentinel_rust_verif)]
         crate::verif::sched::point("cb:c2o");
+        #[cfg(flea1lt_sentinel_rust_verif)]
+        verif_state::before_lock(&self.state);
         let mut state = self.state.lock().unwrap();
         if *state == State::Closed {
             *state = State::Open;
             self.update_next_retry_timestamp();
+            #[cfg(flea1lt_sentinel_rust_verif)]
+            crate::verif::sched::point("lk:circuitbreaker.STATE_CHANGE_LISTERNERS:lock");
             let listeners = state_change_listeners().lock().unwrap();
             for listener in &*listeners {
                 listener.on_transform_to_open(
@@ -261,11 +269,15 @@ impl BreakerBase {
     pub fn from_open_to_half_open(&self, ctx: &EntryContext) -> bool {
         #[cfg(flea1lt_sentinel_rust_verif)]
         crate::verif::sched::point("cb:o2h");
+        #[cfg(flea1lt_sentinel_rust_verif)]
+        verif_state::before_lock(&self.state);
         let mut state = self.state.lock().unwrap();
         // the retry deadline is checked again under the lock: between the caller's check and this
         // point another thread may have probed, failed and re-opened the breaker with a new deadline
         if *state == State::Open && self.retry_timeout_arrived() {
             *state = State::HalfOpen;
+            #[cfg(flea1lt_sentinel_rust_verif)]
+            crate::verif::sched::point("lk:circuitbreaker.STATE_CHANGE_LISTERNERS:lock");
             let listeners = state_change_listeners().lock().unwrap();
             for listener in &*listeners {
                 listener.on_transform_to_half_open(State::Open, Arc::clone(&self.rule));
@@ -282,10 +294,14 @@ impl BreakerBase {
                 let mut entry = entry.write().unwrap();
                 entry.when_exit(Box::new(
                     move |_entry: &SentinelEntry, ctx: ContextPtr| -> Result<()> {
+                        #[cfg(flea1lt_sentinel_rust_verif)]
+                        verif_state::before_lock(&state);
                         let mut state = state.lock().unwrap();
                         let ctx = ctx.read().unwrap();
                         if ctx.is_blocked() && *state == State::HalfOpen {
                             *state = State::Open;
+                            #[cfg(flea1lt_sentinel_rust_verif)]
+                            crate::verif::sched::point("lk:circuitbreaker.STATE_CHANGE_LISTERNERS:lock");
                             let listeners = state_change_listeners().lock().unwrap();
                             for listener in &*listeners {
                                 listener.on_transform_to_open(
@@ -317,10 +333,14 @@ impl BreakerBase {
     pub fn from_half_open_to_open(&self, snapshot: Arc<Snapshot>) -> bool {
         #[cfg(flea1lt_sentinel_rust_verif)]
         crate::verif::sched::point("cb:h2o");
+        #[cfg(flea1lt_sentinel_rust_verif)]
+        verif_state::before_lock(&self.state);
         let mut state = self.state.lock().unwrap();
         if *state == State::HalfOpen {
             *state = State::Open;
             self.update_next_retry_timestamp();
+            #[cfg(flea1lt_sentinel_rust_verif)]
+            crate::verif::sched::point("lk:circuitbreaker.STATE_CHANGE_LISTERNERS:lock");
             let listeners = state_change_listeners().lock().unwrap();
             for listener in &*listeners {
                 listener.on_transform_to_open(
@@ -343,9 +363,13 @@ impl BreakerBase {
     pub fn from_half_open_to_closed(&self) -> bool {
         #[cfg(flea1lt_sentinel_rust_verif)]
         crate::verif::sched::point("cb:h2c");
+        #[cfg(flea1lt_sentinel_rust_verif)]
+        verif_state::before_lock(&self.state);
         let mut state = self.state.lock().unwrap();
         if *state == State::HalfOpen {
             *state = State::Closed;
+            #[cfg(flea1lt_sentinel_rust_verif)]
+            crate::verif::sched::point("lk:circuitbreaker.STATE_CHANGE_LISTERNERS:lock");
             let listeners = state_change_listeners().lock().unwrap();
             for listener in &*listeners {
                 listener.on_transform_to_closed(State::HalfOpen, Arc::clone(&self.rule));
@@ -360,8 +384,37 @@ impl BreakerBase {
     }
 }
 
+/// Verification hook: a scheduling point before every lock of a breaker's state mutex; the mutexes seen
+/// are remembered (weakly) so that a harness can ask whether one of them is held.
+#[cfg(flea1lt_sentinel_rust_verif)]
+pub(crate) mod verif_state {
+    use super::State;
+    use std::sync::{Arc, Mutex, Weak};
+
+    static SEEN: Mutex<Vec<Weak<Mutex<State>>>> = Mutex::new(Vec::new());
+
+    pub(crate) fn before_lock(state: &Arc<Mutex<State>>) {
+        {
+            let mut seen = SEEN.lock().unwrap_or_else(|e| e.into_inner());
+            seen.retain(|w| w.strong_count() > 0);
+            if !seen.iter().any(|w| std::ptr::eq(w.as_ptr(), Arc::as_ptr(state))) {
+                seen.push(Arc::downgrade(state));
+            }
+        }
+        crate::verif::sched::point("lk:circuitbreaker.breaker_state:lock");
+    }
+
+    pub(crate) fn held() -> bool {
+        let seen = SEEN.lock().unwrap_or_else(|e| e.into_inner());
+        seen.iter()
+            .any(|w| w.upgrade().map(|m| m.try_lock().is_err()).unwrap_or(false))
+    }
+}
+
 impl Drop for BreakerBase {
     fn drop(&mut self) {
+        #[cfg(flea1lt_sentinel_rust_verif)]
+        crate::verif::sched::point("lk:circuitbreaker.STATE_CHANGE_LISTERNERS:lock");
         let listeners = state_change_listeners().lock().unwrap();
         for listener in &*listeners {
             listener.on_circuit_breaker_drop(self.current_state(), Arc::clone(&self.rule));
